@@ -7943,9 +7943,11 @@ func (p *Parser) closureAfterArrow(firstSpan *position.Location, params []ast.Pa
 	var location *position.Location
 	arrowTok, ok := p.matchOk(token.THIN_ARROW, token.WIGGLY_ARROW)
 	if !ok {
+		// report the unexpected token the same way `consume` does
+		tok, _ := p.consume(token.THIN_ARROW)
 		return ast.NewInvalidNode(
-			arrowTok.Location(),
-			arrowTok,
+			tok.Location(),
+			tok,
 		)
 	}
 	lambda := arrowTok.Type == token.WIGGLY_ARROW
